@@ -7,6 +7,16 @@ HOOK_COMMITS = ["9deeead"]
 
 # property -> (level, technique, level text, level note, design ref)
 CLAIMED = {
+ "C01": ("exploration",
+         "runtime monitor: independent WHATWG tokenizer compares the token structure of hostile / inert / author renderings of generated templates; marker location",
+         "Every accepted generated template is executed with hostile and inert assignments; three oracles (data vs inert structure, engine vs text/template rendering of the author's markup, marker containment) judge each execution in three tree-builder modes. Reach comes from the grammar (lexical variants, special elements, control flow that tears tags, helpers) and the edge battery; nothing is claimed for templates or data not generated.",
+         "Trusted: htmltok (self-tested), text/template as renderer of the author's markup; hostile and inert assignments share truthiness and list lengths. Known findings K01, K16, K17, K21 are excluded by the syntactic predicates stated in KNOWN_FINDINGS.txt.",
+         "DESIGN.md §5 C01"),
+ "C02": ("exploration",
+         "runtime monitor: marker location + whole-value scheme scan of every successful hostile execution (independent tokenizer, character-reference decoder, WHATWG scheme and srcset parsers)",
+         "A systematic family (47 element/attribute targets x 2 quotings x 26 static prefixes x 33 shapes of dynamic parts, dangerous strings split over the parts) plus grammar-generated templates; each output is tokenized, every marker located, every data-dependent URL attribute decoded and scanned. Violations are code contexts reached by plain strings or a javascript scheme.",
+         "Trusted: htmltok + DecodeAttrValue, refs.Scheme/Srcset/SafeTRUPrefix; static prefixes are read off the inert execution of the same template. Known findings K05r, K14 excluded as stated in KNOWN_FINDINGS.txt.",
+         "DESIGN.md §5 C02"),
  "C11": ("exploration",
          "runtime monitor: WHATWG scheme scanner + character-reference decoder observe every URLSanitized result over exhaustive case-folding/insertion families and seeded URL soups",
          "Each URLSanitized call is judged by an independent WHATWG scheme scanner on the raw and on the character-reference-decoded input, plus the converse (must-keep) clause; the finite families (1024 foldings x ~520 inserted units x 12 positions; all short strings over a URL alphabet) are enumerated, the rest sampled.",
